@@ -1,6 +1,11 @@
 package task
 
 import (
+	"github.com/go-task/task/v3/internal/output"
+	"github.com/go-task/task/v3/internal/execext"
+	"strings"
+	"context"
+	"io"
 	"fmt"
 	"os"
 	"path/filepath"
@@ -77,3 +82,100 @@ func ZZ_C09_Dotenv() {
 }
 
 var _ = godotenv.Read
+
+// ZZ_C09_WhenChangedKey (2-safety): the key under which a run: when_changed execution is
+// deduplicated is computed twice for the same call - each time with its own symbolic order
+// of every Go map range - and must come out the same: otherwise identical calls are
+// deduplicated or not at random. The task has several env entries and variables.
+func ZZ_C09_WhenChangedKey() {
+	zzEnviron = []string{"HOME=/h"}
+	tf := &ast.Taskfile{Vars: ast.NewVars(), Env: ast.NewVars(), Tasks: ast.NewTasks(), Run: "when_changed", Method: "checksum"}
+	tf.Env.Set("GLOBAL_E", ast.Var{Value: "g"})
+	t := &ast.Task{Task: "t", Location: &ast.Location{Taskfile: "/d/f.yml"}, Vars: ast.NewVars(), Env: ast.NewVars(),
+		Cmds: []*ast.Cmd{{Cmd: "echo"}}}
+	t.Env.Set("E1", ast.Var{Value: "one"})
+	t.Env.Set("E2", ast.Var{Value: "two"})
+	t.Vars.Set("V1", ast.Var{Value: "x"})
+	t.Vars.Set("V2", ast.Var{Value: "y"})
+	tf.Tasks.Set("t", t)
+	e := &Executor{Taskfile: tf, Stdout: io.Discard, Stderr: io.Discard}
+	e.Logger = zzQuietLogger()
+	e.Compiler = &Compiler{Dir: "", TaskfileEnv: tf.Env, TaskfileVars: tf.Vars, Logger: e.Logger}
+	key := func() string {
+		ct, err := e.CompiledTask(&Call{Task: "t"})
+		if err != nil || ct == nil {
+			return "compile error"
+		}
+		h, err := e.GetHash(ct)
+		if err != nil {
+			return "hash error"
+		}
+		return h
+	}
+	k1, k2 := key(), key()
+	zz.Assert(k1 == k2, "same-deduplication-key-for-the-same-call")
+	if zz.Native() {
+		for n := 0; n < 60; n++ {
+			zz.Assert(key() == k1, "same-deduplication-key-for-the-same-call")
+		}
+	}
+	if zz.Twin() {
+		zz.Assert(false, "twin")
+	}
+	zz.Reach("end")
+}
+
+// ZZ_C06_DynamicBinding: two calls of a run: when_changed task whose variables differ only
+// in what a dynamic (sh:) call variable evaluates to are two distinct executions; equal
+// values are one.
+func ZZ_C06_DynamicBinding() {
+	v1, v2 := zz.Str("who1", 1, "ab"), zz.Str("who2", 1, "ab")
+	zz.Assume(v1 != "" && v2 != "")
+	zzEnviron = []string{"HOME=/h"}
+	ran := 0
+	zzRun = func(ctx context.Context, opts *execext.RunCommandOptions) error {
+		if strings.HasPrefix(opts.Command, "echo ") {
+			if opts.Stdout != nil {
+				_, _ = io.WriteString(opts.Stdout, strings.TrimPrefix(opts.Command, "echo ")+"\n")
+			}
+			return nil
+		}
+		ran++
+		return nil
+	}
+	tf := &ast.Taskfile{Vars: ast.NewVars(), Env: ast.NewVars(), Tasks: ast.NewTasks(), Run: "when_changed", Method: "checksum"}
+	tf.Tasks.Set("t", &ast.Task{Task: "t", Location: &ast.Location{Taskfile: "/d/f.yml"}, Vars: ast.NewVars(), Env: ast.NewVars(),
+		Cmds: []*ast.Cmd{{Cmd: "greet {{.WHO}}"}}})
+	sink := &zzLineSink{}
+	e := &Executor{Taskfile: tf, Stdout: sink, Stderr: io.Discard, Stdin: strings.NewReader(""), Silent: true, Output: output.Interleaved{}}
+	e.Logger = zzQuietLogger()
+	e.Compiler = &Compiler{Dir: "", TaskfileEnv: tf.Env, TaskfileVars: tf.Vars, Logger: e.Logger}
+	e.setupConcurrencyState()
+	call := func(v string) *Call {
+		c := &Call{Task: "t", Vars: ast.NewVars()}
+		sh := "echo " + v
+		c.Vars.Set("WHO", ast.Var{Sh: &sh})
+		return c
+	}
+	if zz.Native() {
+		t, _ := tf.Tasks.Get("t")
+		t.Cmds[0].Cmd = "echo greet {{.WHO}}"
+	}
+	err := e.Run(context.Background(), call(v1), call(v2))
+	if zz.Native() {
+		ran = 0
+		for _, l := range sink.lines {
+			ran += strings.Count(l, "greet") // (the shell may write a line in pieces)
+		}
+	}
+	zz.Assert(err == nil, "runs-succeed")
+	if v1 == v2 {
+		zz.Assert(ran == 1, "when_changed/one-execution-per-distinct-binding")
+	} else {
+		zz.Assert(ran == 2, "when_changed/one-execution-per-distinct-binding")
+	}
+	if zz.Twin() {
+		zz.Assert(false, "twin")
+	}
+	zz.Reach("end")
+}
